@@ -44,7 +44,7 @@ func c09Scenarios(cfg runCfg) []Scenario {
 	}
 	for j := 0; j < cfg.n(200, 100); j++ {
 		if cfg.mine(i) {
-			out = append(out, Scenario{Family: "failfiles", Seed: mix(cfg.seed, 9, 1, uint64(j)), N: pick(newRng(uint64(j)), []int{1, 3, 17, 100, 0, 2}), K: 1 + j%5})
+			out = append(out, Scenario{Family: "failfiles", Seed: mix(cfg.seed, 9, 1, uint64(j)), N: pick(newRng(uint64(j)), []int{1, 3, 17, 100, 0, 2}), K: []int{1, 2, 3, 4, 5, 1, 2, 3, 4, 5, 24, 45, 70, 130}[j%14]}) // (also dozens of files: every one is replayed)
 		}
 		i++
 	}
@@ -75,6 +75,10 @@ func c09Scenarios(cfg runCfg) []Scenario {
 	}
 	if cfg.shard == 12 || cfg.shard == 15 {
 		out = append(out, Scenario{Family: "deadline", Seed: mix(cfg.seed, 9, 7, uint64(cfg.shard)), K: 3})
+	}
+	// a short test deadline (go test -timeout 8s) and a fail file that still falsifies: it is replayed first all the same
+	if cfg.shard == 5 || cfg.shard == 10 {
+		out = append(out, Scenario{Family: "deadline", Seed: mix(cfg.seed, 9, 8, uint64(cfg.shard)), K: 4})
 	}
 	return out
 }
@@ -398,10 +402,29 @@ func c09Run(t *testing.T, sc Scenario, res *Result) {
 			// the falsifying test case is slow and ends close to the test deadline: it is still a falsification
 			cmd = exec.Command(self, "-test.run", "^TestDeadlineChild$", "-test.timeout", "6s", "-test.v", "-rapid.checks", "50", "-rapid.nofailfile")
 		}
+		if sc.K == 4 {
+			cmd = exec.Command(self, "-test.run", "^TestDeadlineChild$", "-test.timeout", "8s", "-test.v", "-rapid.checks", "50", "-rapid.nofailfile")
+		}
 		cmd.Env = append(os.Environ(), fmt.Sprintf("C09_DEADLINE_MODE=%d", sc.K))
 		began := time.Now()
 		out, _ := cmd.CombinedOutput()
 		text := string(out)
+		if sc.K == 4 {
+			res.inc("checks_run")
+			res.inc("family:deadline")
+			res.nontrivial("deadline/4")
+			switch {
+			case strings.Contains(text, "test timed out"):
+				res.inconclusive("deadline child (mode 4) hit the go test timeout")
+			case !strings.Contains(text, "DEADLINE-CHILD-RAN"):
+				res.inconclusive("deadline child did not run: " + clip(text, 200))
+			case !strings.Contains(text, "failed after 0 tests: the saved test case still fails") || !strings.Contains(text, "DEADLINE-CHILD-RANDOM-CASES 0"):
+				res.violate(sc, "c09/deadline-failfile", "with a test deadline 8 s away a fail file that still falsifies the property was not replayed first (or random test cases ran): "+clip(text, 500), nil)
+			default:
+				res.inc("deadline_short_failfile_replayed")
+			}
+			return
+		}
 		if sc.K == 3 {
 			res.inc("checks_run")
 			res.inc("family:deadline")
@@ -1009,6 +1032,30 @@ func TestDeadlineChild(t *testing.T) {
 			rapid.Uint8().Draw(rt, "v")
 		})
 		fmt.Println("DEADLINE-CHILD-CALLS", calls)
+		return
+	}
+	if mode == "4" {
+		defer os.RemoveAll("testdata")
+		saved := map[string]string{}
+		flag.VisitAll(func(f *flag.Flag) {
+			if strings.HasPrefix(f.Name, "rapid.") {
+				saved[f.Name] = f.Value.String()
+			}
+		})
+		ver := rapidVersion() // (runs a Check under flags of its own)
+		for k, v := range saved {
+			_ = flag.Set(k, v)
+		}
+		writeFailFile(t.Name(), "20260101000000-1", ver, 1, []uint64{7, 7, 7, 7}, "still fails")
+		random := 0
+		defer func() { fmt.Println("DEADLINE-CHILD-RANDOM-CASES", random) }()
+		rapid.Check(t, func(rt *rapid.T) {
+			rapid.Uint8().Draw(rt, "v")
+			if rapid.VerifStreamOf(rt).Kind == "buffer" {
+				rt.Fatalf("the saved test case still fails")
+			}
+			random++
+		})
 		return
 	}
 	rapid.Check(t, func(rt *rapid.T) {
